@@ -115,6 +115,18 @@ def micro_c10_scenario(r) -> Dict[str, Any]:
     for key in list(sc["actions"])[:: max(1, len(sc["actions"]) // 6)]:
         sym = r.choice(syms)
         sc["actions"][key].insert(0, {"op": "loan", "symbol": sym, "amount": _s(D(r.randint(1, 9))), "boundary": True})
+    sc["reuse_strategy"] = r.random() < 0.35
+    if not sc["reuse_strategy"] and r.random() < 0.5:
+        # requirement of a symbol raised (or lowered) half-way through, after it already took part in margin checks
+        keys = sorted(sc["actions"], key=lambda k: int(k.split("@")[1]))
+        if len(keys) >= 4:
+            sym = r.choice(syms)
+            base_c = dict(sc["lend"]["per_symbol"].get(sym) or sc["lend"]["default"])
+            base_c["req"] = r.choice(["2", "1", "0.5", "0.1"])
+            k = keys[len(keys) // 2]
+            sc["actions"][k].insert(0, {"op": "set_cond", "symbol": sym, "cond": base_c})
+            for kk in keys[len(keys) // 2:]:
+                sc["actions"][kk].insert(1, {"op": "loan", "symbol": sym, "amount": _s(D(r.randint(1, 9))), "boundary": True})
     if kind == "zero_equity":
         # first action: borrow, so that the only asset equals the debt; then try to borrow much more
         first = sorted(sc["actions"], key=lambda k: int(k.split("@")[1]))[:1]
